@@ -161,7 +161,8 @@ func init() {
 		Rule:  "one case = one client (location) of one concurrent round: 8-16 clients released on a barrier against a fresh engine, each issuing 12-21 generated requests (facts, rules, events, searches, queries, removes) to its own location, starting with the engine's first requests; half of the rounds through the HTTP service (httptest); seeded delays at sys.storage.gap / sys.open.gap in two thirds of the rounds; compared request by request and by final state with the same sequences run alone on another fresh engine; run under the race detector; non-trivial = at least two clients overlapped in time; distinct by (seed, round, client); every other round configures CodeProps, half of the rule actions write through Env.AddFact and report Env.Location; every fifth round runs with timers on and MaxTimers 5; plus (batch 0) `pendingLimit`: the service behind its own Listener with SetMaxPending(2), six clients on six locations with fresh connections and slow events: refusals are errors for their client only, the process lives, every location ends with exactly the acknowledged facts (inconclusive when no refusal was observed)",
 		Floor: [2]int{20, 200},
 		Assumptions: []string{"schedules are sampled (barrier start + injected delays), not enumerated", "engines are created sequentially by the harness (NewSystem writes a process-wide parameter; DESIGN §6.6)"},
-		Stages: []Stage{{Name: "locations", Pkg: "./mon/c11", Race: true, Procs: 8, Batches: [2]int{3, 8}, TimeoutS: [2]int{1200, 3600}, HangIsViolation: true}},
+		Stages: []Stage{{Name: "locations", Pkg: "./mon/c11", Race: true, Procs: 8, Batches: [2]int{3, 8}, TimeoutS: [2]int{1200, 3600}, HangIsViolation: true},
+			{Name: "bolt", Pkg: "./mon/c11", Procs: 8, Batches: [2]int{1, 2}, TimeoutS: [2]int{600, 1200}, HangIsViolation: true}},
 	}
 }
 
